@@ -134,6 +134,10 @@ func (g *Gateway) subscriptionHandler(w http.ResponseWriter, r *http.Request) {
 		// Let event handlers deal with starting operations
 		case requests.SubStart:
 			request := subMsg.Payload
+			// a start message without payload starts nothing
+			if request == nil {
+				return
+			}
 			request.Original = r
 
 			query, qerr := gqlparser.LoadQuery(g.schema, request.Query)
